@@ -94,6 +94,35 @@ fn run_hx(prop: &str, tier: &str) -> i32 {
     let mut max_depth = 0usize;
     let mut op_stats: std::collections::BTreeMap<String, (u64, u64)> = Default::default();
     let n_sc = scs.len();
+    // small scenarios first: each gets a fair share of what is left, so the large ones at the end
+    // inherit whatever the small ones did not need
+    let mut scs = scs;
+    {
+        let est_dir = hx::scratch_root().join("estimate");
+        let mut keyed: Vec<(f64, Arc<dyn hx::Scenario>)> = scs
+            .drain(..)
+            .map(|sc| {
+                let seeds = sc.seeds();
+                let first = seeds.first().cloned().unwrap_or_default();
+                hx::fresh_dir(&est_dir);
+                let a = match sc.make_driver(&est_dir) {
+                    Ok(mut d) => {
+                        for op in &first {
+                            let _ = d.apply(op);
+                        }
+                        sc.enabled(&d, &first).len().max(1)
+                    }
+                    Err(_) => 1,
+                };
+                let b = sc.budget();
+                let depth = (b.data + b.maint + b.snap + b.reopen + b.special) as i32;
+                ((seeds.len().max(1) as f64) * (a as f64).powi(depth.min(7)), sc)
+            })
+            .collect();
+        keyed.sort_by(|x, y| x.0.partial_cmp(&y.0).unwrap_or(std::cmp::Ordering::Equal));
+        scs = keyed.into_iter().map(|x| x.1).collect();
+        let _ = std::fs::remove_dir_all(&est_dir);
+    }
     for (sci, sc) in scs.into_iter().enumerate() {
         // fair share of what is left, so that one large scenario cannot starve the others
         let left = (n_sc - sci) as f64;
